@@ -22,7 +22,8 @@ RULE = ("Metamorphic: Hypothesis generates a multiset Wf of 2-5 well-formed entr
 ASSUMPTIONS = ["the entry to restore is addressed by the index printed for it in each run"]
 
 MKINDS = ["non_trashinfo", "empty", "truncated", "binary", "nonutf8", "no_path", "no_date",
-          "bad_date", "no_payload", "orphan", "dir_trashinfo", "dangling_trashinfo"]
+          "bad_date", "no_payload", "orphan", "dir_trashinfo", "dangling_trashinfo", "long_orphan",
+          "long_non_trashinfo"]
 CMDS = ["list", "restore_date", "restore_path", "restore_none", "rm", "empty", "empty_days"]
 
 
@@ -101,6 +102,11 @@ def build(case, with_m):
                 tw.nodes += [{"p": ip, "t": "b", "b": list(good)}]
             elif k == "orphan":
                 tw.nodes += [pay]
+            elif k == "long_orphan":
+                # payload without info whose name + '.trashinfo' exceeds NAME_MAX
+                tw.nodes += [{"p": td + "/files/" + nm + "o" * (250 - len(fsenc(nm))), "t": "f", "c": "x"}]
+            elif k == "long_non_trashinfo":
+                tw.nodes += [{"p": td + "/info/" + nm + "i" * (250 - len(fsenc(nm))), "t": "f", "c": "x"}]
             elif k == "dir_trashinfo":
                 tw.nodes += [{"p": ip + "/inside", "t": "f", "c": "x"}, pay]
             elif k == "dangling_trashinfo":
@@ -159,7 +165,7 @@ def run_case(case):
     kinds = sorted(set(m["kind"] for m in case["mal"]))
     cmd = case["cmd"]
     tags = dict(cmd=cmd)
-    for k in ("nonutf8", "dir_trashinfo", "no_date", "bad_date", "dangling_trashinfo"):
+    for k in ("nonutf8", "dir_trashinfo", "no_date", "bad_date", "dangling_trashinfo", "long_orphan"):
         tags["has_" + k] = k in kinds
     out.classes += ["cmd:" + cmd] + ["m:" + k for k in kinds]
     for key in ("lines", "offered"):
